@@ -145,7 +145,9 @@ func main() {
 		maxLen = 7
 	}
 	alphabet := [][]byte{[]byte("a"), []byte("\n"), []byte("é")}
-	prefixes := []string{">", ">>", "é"}
+	// prefixes: one byte, two bytes, a multi-byte character, and prefixes that contain a line feed
+	// themselves (the count returned on a short write must not confuse them with the text's)
+	prefixes := []string{">", ">>", "é", ">\n", "\n> "}
 	// all texts up to maxLen symbols
 	texts := [][]byte{{}}
 	frontier := [][]byte{{}}
@@ -189,6 +191,43 @@ func main() {
 						if k >= handed {
 							break
 						}
+					}
+				}
+			}
+		}
+	}
+	// large single writes: lines and arguments longer than any plausible internal block size
+	// (32 KiB, 64 KiB), written in one call, in two, and cut short at block boundaries
+	{
+		rep := func(b byte, n int) []byte { return bytes.Repeat([]byte{b}, n) }
+		larges := [][]byte{
+			rep('a', 40000),
+			append(append(rep('a', 33000), '\n'), rep('b', 10)...),
+			append(append(append(rep('a', 20000), '\n'), rep('b', 50000)...), '\n'),
+			bytes.Repeat([]byte("abcdefg\n"), 9000),
+			rep('\n', 70000),
+		}
+		for _, pre := range []string{">", ">> "} {
+			for _, t := range larges {
+				for _, cut := range []int{0, 1, 32767, 32768, len(t) / 2} {
+					var chunks []string
+					if cut == 0 {
+						chunks = []string{lib.Hex(t)}
+					} else {
+						chunks = []string{lib.Hex(t[:cut]), lib.Hex(t[cut:])}
+					}
+					c := tcase{Pre: lib.HexS(pre), Chunks: chunks, FailAt: -1}
+					g, _ := runGo(c)
+					cases = append(cases, c)
+					goOut = append(goOut, g)
+					for _, k := range []int{0, 1, 2, 32767, 32768, 32769, 32770, 40000, 65535, 65536, 65537} {
+						c := tcase{Pre: lib.HexS(pre), Chunks: chunks[:1], FailAt: 0, K: k}
+						g, handed := runGo(c)
+						if k > handed {
+							continue
+						}
+						cases = append(cases, c)
+						goOut = append(goOut, g)
 					}
 				}
 			}
@@ -399,6 +438,40 @@ func nested(f *lib.Flags, res *lib.Result, maxSym int) int64 {
 					goOut = append(goOut, lib.Hex(sink.Bytes())+" ;"+rs.String())
 				}
 			}
+		}
+	}
+	// large nested writes: what the outer writer hands down exceeds 32 KiB / 64 KiB
+	for _, t := range [][]byte{bytes.Repeat([]byte{'a'}, 34000), bytes.Repeat([]byte("ab\n"), 12000),
+		append(append(bytes.Repeat([]byte{'a'}, 30000), '\n'), bytes.Repeat([]byte{'b'}, 40000)...)} {
+		for _, mode := range []string{"o", "i", "oi"} {
+			var sink bytes.Buffer
+			inner := indent.NewWriter(&sink, ">  ")
+			outer := indent.NewWriter(inner, "--")
+			req := "nested " + lib.HexS(">  ") + " " + lib.HexS("--")
+			var rs strings.Builder
+			c := ncase{P1: ">  ", P2: "--"}
+			parts := [][]byte{t}
+			if mode == "oi" {
+				parts = [][]byte{t[:len(t)/2], t[len(t)/2:]}
+			}
+			for i, p := range parts {
+				o := mode == "o" || (mode == "oi" && i == 0)
+				w, tag := inner, "i"
+				if o {
+					w, tag = outer, "o"
+				}
+				n, err := w.Write(p)
+				if err != nil {
+					n = -1
+				}
+				fmt.Fprintf(&rs, " %d", n)
+				req += " " + lib.Hex(p) + " " + tag
+				c.Chunks = append(c.Chunks, fmt.Sprintf("%d bytes", len(p)))
+				c.Outer = append(c.Outer, o)
+			}
+			cases = append(cases, c)
+			reqs = append(reqs, req)
+			goOut = append(goOut, lib.Hex(sink.Bytes())+" ;"+rs.String())
 		}
 	}
 	ans, err := lib.ParBatch(f.Driver, reqs, f.Procs)
